@@ -17,7 +17,9 @@ RULE = ("default strategy (nbmerge without strategy flags) x renderer {git merge
         "as a whole line. (2) flagging cases built by construction: minor-5 base, one cell (same id on all sides) where both sides rewrite "
         "the same line(s) to different text (plus unrelated edits elsewhere): some decision must be conflicted and the merged source of "
         "that cell must contain both variants, and keeping one side of every conflict block of that source gives back that side's source "
-        "(lines compared after rstrip). Merges that raise are C03's subject and only counted. Non-trivial: some side added a source "
+        "(lines compared after rstrip). (3) cell-block cases: both sides insert cells at one position of a minor-5 notebook, each dropping "
+        "none or the same m following cells; when the result shows the three red marker cells, the cell ids before + inside one side's "
+        "part + after the block must be that side's notebook. Merges that raise are C03's subject and only counted. Non-trivial: some side added a source "
         "line (1) / rewritten line neither first nor last (2); distinct = canonical JSON of (triple, renderer).")
 ASSUMPTIONS = ["lines compared after rstrip, split with str.splitlines on every side", "git runs with an empty global/system configuration (default conflict style)",
                "marker grammar: '<<<<<<< local', '||||||| base', '=======', '>>>>>>> remote', the two CELL DELETED markers and the red <span> cell markers"]
@@ -27,6 +29,9 @@ SHRINK_EVALS = 500
 # labels are the three file names handed to git merge-file / diff3 (diff3 may open a block with '<<<<<<< base')
 MARKER = re.compile(r'^(<{7} (local|base|remote|LOCAL CELL DELETED >{7}|REMOTE CELL DELETED >{7})|\|{7}( (local|base|remote))?|={7}'
                     r'|>{7} (local|base|remote)|<span style="color:red"><b>(<{7} local|={7}|>{7} remote)</b></span>)$')
+
+
+CELL_MARK = re.compile(r'^<span style="color:red"><b>(<{7} local|={7}|>{7} remote)</b></span>$')
 
 
 def valid(case):
@@ -88,9 +93,33 @@ def flagging(draw):
             "interior": interior, "regions": len(starts)}
 
 
+@st.composite
+def cellblock(draw):
+    """Both sides insert new cells at one position of a minor-5 notebook and each may also drop the base cell(s) that follow - the shape
+    the inline strategy renders as a block of cells between three red marker cells. Nothing else changes, so keeping one side of the
+    block must give back that side's notebook."""
+    n = draw(st.integers(2, 5))
+
+    def cell(cid, src):
+        return {"cell_type": "code", "metadata": {}, "execution_count": None, "outputs": [], "source": src, "id": cid}
+    base_cells = [cell("c%d" % i, "".join("base_%d_line_%d = %d\n" % (i, j, j * (i + 3)) for j in range(3))) for i in range(n)]
+    k = draw(st.integers(0, n))
+    sides = {}
+    # a side drops either nothing or the same m following cells as the other (different counts would add a one-sided deletion outside
+    # the block, which both resolutions rightly share)
+    m = draw(st.integers(0, min(2, n - k)))
+    for side in ("L", "R"):
+        ins = [cell("%snew%d" % (side, j), "".join("%s_new_%d_row_%d = load(%d)\n" % (side, j, q, q) for q in range(2 + j)))
+               for j in range(draw(st.integers(1, 2)))]
+        rm = draw(st.sampled_from([0, m]))
+        sides[side] = base_cells[:k] + ins + base_cells[k + rm:]
+    nb = lambda cells: {"nbformat": 4, "nbformat_minor": 5, "metadata": {}, "cells": copy.deepcopy(cells)}
+    return {"mode": "cellblock", "base": nb(base_cells), "local": nb(sides["L"]), "remote": nb(sides["R"]), "shape": "cellblock"}
+
+
 def strategy(tier):
     t = N.triple().map(lambda t: {"mode": "lines", "base": t[0], "local": t[1], "remote": t[2], "shape": t[3]})
-    return st.tuples(st.one_of(t, t, flagging()), st.sampled_from(S.RENDERERS)).map(lambda x: dict(x[0], renderer=x[1]))
+    return st.tuples(st.one_of(t, t, t, t, flagging(), flagging(), cellblock()), st.sampled_from(S.RENDERERS)).map(lambda x: dict(x[0], renderer=x[1]))
 
 
 def lines_of(nb):
@@ -123,6 +152,8 @@ def run_case(case):
     added = (ll - lb) | (lr - lb)
     if case["mode"] == "lines":
         out.nontrivial = bool(added)
+    elif case["mode"] == "cellblock":
+        out.nontrivial = True
     else:
         out.nontrivial = bool(case["interior"])
     detail_base = {"renderer": rend}
@@ -137,6 +168,22 @@ def run_case(case):
     if alien:
         out.fail("provenance", "fabricated_line", "contains marker text" if _has_marker(alien[0]) else "no marker text",
                  detail=dict(detail_base, line=alien[0], side_lacks_final_newline=_lacks_final_newline(case, None)))
+    if case["mode"] == "cellblock":
+        ids = [c.get("id") for c in merged["cells"]]
+        marks = [i for i, c in enumerate(merged["cells"]) if c["cell_type"] == "markdown" and CELL_MARK.match(c["source"] or "")]
+        kinds = [CELL_MARK.match(merged["cells"][i]["source"]).group(1) for i in marks]
+        if kinds == ["<<<<<<< local", "=======", ">>>>>>> remote"]:
+            out.count("cell_blocks_checked")
+            i0, i1, i2 = marks
+            for side, part in (("local", ids[i0 + 1:i1]), ("remote", ids[i1 + 1:i2])):
+                got = ids[:i0] + part + ids[i2 + 1:]
+                want = [c["id"] for c in case[side]["cells"]]
+                if got != want:
+                    out.fail("side_reconstructible", "%s_cells_not_reconstructible_from_cell_block" % side, detail=dict(detail_base, got=got, want=want))
+                    break
+        else:
+            out.count("cellblock_cases_rendered_otherwise")
+        return out
     if case["mode"] == "flag":
         if not M.conflicted(dec):
             out.fail("flagging", "conflict_not_reported", detail=detail_base)
